@@ -20,8 +20,12 @@ DOC_ORDER = ["fish", "meat", "dairy", "greenhouse", "outdoor_crops", "stored_foo
 TIGHT = "(1#1000000000000)"
 LOOSE = "(1#1000000000)"
 
+RETIME = {"meat_strategy": "feed_only_ruminants", "shutoff": "short_delayed_shutoff"}
 REAL_POOL = [  # (country, option overrides): three-round runs of different character
     ("USA", {}), ("IND", {}), ("BRA", {}), ("CHN", {}), ("FRA", {}), ("NZL", {}), ("AUS", {}), ("NGA", {}),
+    # runs in which the re-timing really moves meat (with-feed slaughter lags the no-feed schedule in some months)
+    ("MNG", {"shutoff": "continued"}), ("MNG", dict(RETIME)), ("JOR", dict(RETIME)), ("SDN", dict(RETIME)),
+    ("ETH", dict(RETIME)), ("BFA", dict(RETIME)), ("GRC", dict(RETIME)),
     ("ARG", {}), ("JPN", {}), ("DEU", {}), ("IDN", {}), ("ETH", {}), ("MEX", {}), ("GBR", {}), ("ZAF", {}),
     ("USA", {"scenario": "all_resilient_foods"}), ("IND", {"scenario": "all_resilient_foods"}),
     ("BRA", {"shutoff": "continued"}), ("CHN", {"shutoff": "short_delayed_shutoff"}),
@@ -354,6 +358,11 @@ def boundary_minneeds(rng):
             while c["mode"] == "malformed" or min(sum(c["series"][a][m] for a in ATTRS) for m in range(c["N"])) <= 0:
                 c = gen_minneeds(rng, dyadic)
             c["pf"] = float(100.0 * min(sum(c["series"][a][m] for a in ATTRS) for m in range(c["N"])) / c["K"])
+            while what == "T=pf" and c["pf"] > 100.0:
+                # a threshold above 100 % is (rightly) refused by the function's own validator: keep T = pf legal
+                for a in ATTRS:
+                    c["series"][a] = [v / 2 for v in c["series"][a]]
+                c["pf"] = float(100.0 * min(sum(c["series"][a][m] for a in ATTRS) for m in range(c["N"])) / c["K"])
             if what == "T=0(int)":
                 c["T"], c["T_int"] = 0.0, True
             elif what == "T=0.0":
@@ -599,10 +608,12 @@ def build_cases(ctx):
 def real_runs(ctx):
     pool = list(REAL_POOL)
     if ctx.quick:
-        fixed = [pool[0], pool[5]]   # USA (plain), NZL (the special-cased constant)
+        # USA (plain), NZL (the special-cased constant), MNG twice (shipped nuclear-winter options; ruminants only +
+        # short shut-off): the two MNG runs are ones where the re-timing moves meat
+        fixed = [pool[0], pool[5], pool[8], pool[9]]
         rest = [p for p in pool if p not in fixed and len(p) == 2]
         ctx.rng.shuffle(rest)
-        pool = fixed + rest[:2]
+        pool = fixed + rest[:1]
     return [{"country": p[0], "option": p[1], "threshold": (p[2] if len(p) > 2 else None)} for p in pool]
 
 
